@@ -74,37 +74,45 @@ def rule_FP(run: Run) -> RuleResult:
                     bad_use = f"line {e.line}: {e.text or e.op}({tk[:80]})"
         res.add(f"{cons}:options-only-via-keys-and-lookup", ok_uses and n_uses >= 2, f, fn.lineno,
                 f"{n_uses} uses of '{opt}'" + (f"; offending use {bad_use}" if bad_use else " — all are self.keys(·) or get_dotted_key(k, ·)"), nec)
-        # (b) the key set is iterated through sorted(...)
-        iters = []
-        for n in astu.walk_no_nested(fn):
-            if isinstance(n, ast.comprehension):
-                iters.append(n.iter)
-            elif isinstance(n, ast.For):
-                iters.append(n.iter)
-        sorted_ok = bool(iters)
-        unsorted = ""
-        for it in iters:
-            x = astu.expand_locals(it, amap)
-            txt = ast.unparse(x)
-            if f"{selfn}.keys(" in txt:
-                if not (isinstance(x, ast.Call) and astu.short_name(x) == "sorted" and not any(k.arg == "key" for k in x.keywords)):
+        # (b) the key set is iterated through sorted(...): read off the paths — whatever loop, comprehension or helper
+        # walks the reported keys walks sorted(self.keys(options)) (no key=, no reverse=), and some path does walk them
+        fps_b = [p for p in _af(Ctx(repo), c.module, fn, cls=c) if p.status == "ret"]
+        ELEM_T = f"elem({KEYS_T})"
+        SORTED_T = f"reordered:sorted({KEYS_T})"
+        sorted_ok, unsorted, n_iter = bool(fps_b), "", 0
+        for p in fps_b:
+            for e in p.events:
+                if e.kind != "iter" or e.target is None:
+                    continue
+                tk = e.target.key().replace(ELEM_T, "")
+                if KEYS_T not in tk:
+                    continue
+                n_iter += 1
+                if tk not in (SORTED_T, f"list({SORTED_T})", f"tuple({SORTED_T})", f"call:list({SORTED_T})", f"call:tuple({SORTED_T})"):
                     sorted_ok = False
-                    unsorted = txt
-        if not any(f"{selfn}.keys(" in ast.unparse(astu.expand_locals(it, amap)) for it in iters):
+                    unsorted = f"line {e.line}: iterates {e.text} = {tk[:90]}"
+        if sorted_ok and n_iter == 0:
             sorted_ok = False
             unsorted = "no iteration over self.keys(options) found"
         res.add(f"{cons}:sorted-iteration", sorted_ok, f, fn.lineno,
                 "keys are iterated through sorted(self.keys(options))" if sorted_ok else f"keys iterated without sorted: {unsorted}", nec)
-        # (c) serialiser: json.dumps of a list
-        dumps = [c2 for c2 in astu.calls_in(fn) if astu.callee_name(c2) in ("json.dumps", "dumps")]
-        ser_ok = False
-        ser = "no json.dumps call"
-        for d in dumps:
-            if d.args:
-                a0 = astu.expand_locals(d.args[0], amap)
-                ser = ast.unparse(a0)[:120]
-                if isinstance(a0, (ast.List, ast.ListComp)) and not any(k.arg in ("default", "cls") for k in d.keywords):
-                    ser_ok = True
+        # (c) serialiser: json.dumps of a list (JSON arrays keep their order; a dict of the pairs would be re-ordered by
+        # nothing but would collapse … and a set is not serialisable), with no default=/cls= hook
+        ser_ok, ser = bool(fps_b), "no json.dumps call"
+        n_dump = 0
+        for p in fps_b:
+            for e in p.events:
+                if e.kind == "call" and e.text in ("json.dumps", "dumps"):
+                    n_dump += 1
+                    a0 = e.args[0] if e.args else None
+                    ser = a0.key()[:120] if a0 is not None else "nothing"
+                    from .interp import Coll as _Coll
+                    listy = isinstance(a0, Seq) or (isinstance(a0, Sym) and a0.head in ("list[]", "call:list", "list")) or (isinstance(a0, _Coll) and getattr(a0, "kind", "list") in ("list", "gen", None))
+                    hooks = [a for a in e.args[1:] if isinstance(a, Sym) and a.head in ("kw:default", "kw:cls", "kw:sort_keys")]
+                    if not listy or hooks:
+                        ser_ok = False
+        if n_dump == 0:
+            ser_ok = False
         res.add(f"{cons}:json-list-serialiser", ser_ok, f, fn.lineno, f"serialised value: {ser}", nec)
         # (d) returned bytes derive from the dump
         rets = [n for n in astu.walk_no_nested(fn) if isinstance(n, ast.Return) and n.value is not None]
